@@ -1,3 +1,5 @@
 import Props.C01
 import Props.C05
 import Props.C04
+import Props.C10
+import Props.C12
